@@ -1,6 +1,6 @@
 (* C02 — soundness of the layout comparison: no mismatching row implies the per-struct / per-member statement. *)
-From Coq Require Import Arith List String Bool Lia.
-From FEC Require Import Models.PackingM Models.LayoutM.
+From Coq Require Import Arith ZArith List String Bool Lia.
+From FEC Require Import Models.PackingM Models.LayoutM Models.LayoutValuesM.
 Import ListNotations.
 
 Lemma app_nil2 : forall (A : Type) (a b : list A), (a ++ b)%list = [] -> a = [] /\ b = [].
@@ -104,3 +104,16 @@ Proof.
   specialize (H _ Hin). cbn [snd] in H. apply andb_prop in H. destruct H as [H1 H2].
   split; [apply forallb2_struct_agree_sound; exact H1|]. exact (forallb2_combine _ _ _ _ _ H2).
 Qed.
+
+(* value rows: the boolean test is the arithmetic statement *)
+Lemma value_ok_sound : forall r, value_ok r = true -> value_agrees r.
+Proof.
+  intros r H. unfold value_ok in H. cbv zeta in H.
+  apply andb_prop in H. destruct H as [H H4]. apply andb_prop in H. destruct H as [H H3].
+  apply andb_prop in H. destruct H as [H1 H2].
+  apply Z.ltb_lt in H1. apply Z.ltb_lt in H2. apply negb_true_iff in H3. apply Z.eqb_neq in H3. apply Z.leb_le in H4.
+  unfold value_agrees. repeat split; assumption.
+Qed.
+
+Lemma values_forall : forall rows, forallb value_ok rows = true -> forall r, In r rows -> value_agrees r.
+Proof. intros rows H r Hin. apply value_ok_sound. exact (proj1 (forallb_forall _ _) H r Hin). Qed.
